@@ -57,7 +57,24 @@ def run(tier, argv):
         m = json.loads(l)
         e = lines[m["line"] - 1]
         bad.append({"scanner": e["scanner"], "text": e["text"], "what": m["what"], "got": e["events"][:40]})
-    total = s["json"] + s["schema"] + s["enum"] + len(lines)
+    # the schema scanner and the enum-rule scanner on every spelling of the Gaps token lists (annotations, comments, shortcuts included):
+    # the events of a spelling are the events of the compact spelling - kinds, order, token text - new-line events aside, spans inside the text
+    rawg = work.path("gaps.txt")
+    rg = vlib.tlc(work, "Gaps", "Gaps.cfg", consts={"Strength": "1" if quick else "2"}, to_file=rawg, timeout=3000, workers=1, heap="8g")
+    rep.add_tlc(rg, "Gaps (spellings whose event streams are compared with the compact spelling's)")
+    gcases = work.path("gaps.ndjson")
+    with open(gcases, "w") as f:
+        for l in vlib.tagged_file(rawg, "@@CASE"):
+            f.write(l + "\n")
+    gm = work.path("gaps-events.ndjson")
+    p = vlib.run_harness(hbin, ["c06gaps", "-cases", gcases, "-out", gm], timeout=3000)
+    if p.returncode != 0:
+        raise vlib.Infra("c06gaps failed: " + p.stderr.decode()[-2000:])
+    sg = summary_of(p.stderr) if "summary_of" in globals() else json.loads([l for l in p.stderr.decode().split("\n") if l.startswith("@@SUMMARY ")][0][10:])
+    rep.notes["gaps_events"] = sg
+    for m in vlib.read_ndjson(gm):
+        bad.append({"scanner": "schema / enum (spelling)", "text": m["schema"], "what": m["where"], "got": []})
+    total = s["json"] + s["schema"] + s["enum"] + len(lines) + sg["spellings"]
     rep.cov["traces_validated_against_impl"] = total
     rep.cov["evaluations"] = total
     rep.cov["distinct_nontrivial"] = n + len(lines)
